@@ -113,7 +113,9 @@ def _cycle(fr):
     for f in fr:
         cnt[f] = cnt.get(f, 0) + 1
     top = max(cnt.values())
-    return sorted(f for f, c in cnt.items() if c * 2 >= top and c > 1)
+    # a function that is entered once per turn of a cycle whose busiest member is entered three times must still
+    # count as part of the cycle wherever the 256-frame window happens to start
+    return sorted(f for f, c in cnt.items() if c * 4 >= top and c > 1)
 
 
 def _classes(funcs):
@@ -131,7 +133,7 @@ def frames_signature(err, how):
         cyc = _cycle(fr)
         if len(cyc) == 1:
             return "recursion-in=" + "+".join(_classes(cyc))
-        return "recursion=" + ",".join(cyc[:4]) if cyc else fr[0]
+        return "recursion=" + ",".join(cyc[:6]) if cyc else fr[0]
     for f in fr:
         if f not in LEAF_HELPERS:
             return f
